@@ -60,10 +60,11 @@ NONE = NoneV()
 
 
 class Seq:
-    __slots__ = ("arr", "n", "is_list")
+    __slots__ = ("arr", "n", "is_list", "origin")
 
     def __init__(self, arr, n, is_list=False):
         self.arr, self.n, self.is_list = arr, n, is_list
+        self.origin = None          # ghost: ("rep", sequence, count) for count * sequence (lets a callee contract recognise the argument)
 
 
 class Mat:
@@ -1125,6 +1126,7 @@ class Engine:
                 raise Unsupported("sequence * non-int")
             r = fresh_seq("rep")
             r.is_list = s.is_list
+            r.origin = ("rep", s, k)
             i = fresh_int("i")
             reps = z3.If(k.z > 0, k.z, 0)
             st.assume(r.n == reps * s.n)
